@@ -63,7 +63,7 @@ class C19(PropertyCheck):
                  "x0x1_after_extraction: all of [0,7)^4; region_after_extraction: every shape <= 3x3, every "
                  "region x every window; sub-regions: every region inside every shape <= 3x3 x every pixel "
                  "pair in [-1,4]^2 and every pixels_from_end in [-1,5], Region1D inside length <= 5; "
-                 "constructors: all of [-1,3]^4 and [-1,3]^2",
+                 "constructors: all of [-1,3]^4 and [-1,3]^2 (Layout2D scenarios and Layout2D(...) validation are seeded, not exhaustive)",
         "thorough": "rotate: every shape <= 7x7, every valid region, all corners; x0x1: all of [0,9)^4; "
                     "region_after_extraction: every shape <= 4x4, every region x every window; sub-regions: "
                     "every region inside every shape <= 4x4 x pixel pairs in [-2,5]^2; constructors: all of "
@@ -189,6 +189,26 @@ class C19(PropertyCheck):
                    "values": qlist(gen.distinct_ints(rng, h * w)), "regions": three,
                    "corner": list(rng.choice(CORNERS)), "corner2": list(rng.choice(CORNERS)),
                    "window": list(rng.choice(regs)), "store_native": rng.random() < 0.5}
+        # layouts whose regions may leave the frame (rotation must reject) and Layout2D(...) validation
+        for _ in range(150 if quick else 1500):
+            h, w = rng.randint(1, 5), rng.randint(1, 5)
+            regs = _regions(h, w)
+
+            def any_region():
+                if rng.random() < 0.2:
+                    return None
+                if rng.random() < 0.5:
+                    return list(rng.choice(regs))
+                return [rng.randint(-1, h + 1), rng.randint(-1, h + 2), rng.randint(-1, w + 1),
+                        rng.randint(-1, w + 2)]
+
+            three = [any_region() for _ in range(3)]
+            yield {"tag": "layout_any_region", "kind": "layout", "h": h, "w": w,
+                   "values": qlist(gen.distinct_ints(rng, h * w)), "regions": three,
+                   "corner": list(rng.choice(CORNERS)), "corner2": list(rng.choice(CORNERS)),
+                   "window": list(rng.choice(regs)), "store_native": rng.random() < 0.5}
+            yield {"tag": "layout_ctor", "kind": "layout_ctor", "h": h, "w": w, "regions": [any_region() for _ in range(3)],
+                   "corner": list(rng.choice(CORNERS))}
 
     # ------------------------------------------------------------------ implementation
     def run_impl(self, case):
@@ -268,6 +288,14 @@ class C19(PropertyCheck):
                 return reg_out(aa.Region2D(region=tuple(case["region"])))
             if kind == "layout":
                 return self._run_layout(aa, lu, case, reg_out)
+            if kind == "layout_ctor":
+                po, sp, so = [None if r is None else tuple(r) for r in case["regions"]]
+                lay = aa.Layout2D(shape_2d=(case["h"], case["w"]), original_roe_corner=tuple(case["corner"]),
+                                  parallel_overscan=po, serial_prescan=sp, serial_overscan=so)
+                return {"regions": [reg_out(getattr(lay, n)) for n in
+                                    ("parallel_overscan", "serial_prescan", "serial_overscan")],
+                        "roe": [int(v) for v in lay.original_roe_corner],
+                        "shape": [int(v) for v in lay.shape_2d]}
         except exc.RegionException:
             return {"err": "bad_region"}
         raise ValueError(kind)
@@ -336,12 +364,11 @@ class C19(PropertyCheck):
         if kind == "layout":
             h, w = case["h"], case["w"]
             rows = [case["values"][y * w:(y + 1) * w] for y in range(h)]
-            reqs = [{"op": "c19.rotate_array", "rows": rows, "corner": case["corner"]}]
-            for r in case["regions"]:
-                if r is not None:
-                    reqs.append({"op": "c19.rotate_region", "region": r, "shape": [h, w],
-                                 "corner": case["corner"]})
-            return reqs
+            return [{"op": "c19.layout", "rows": rows, "regions": case["regions"], "corner": case["corner"],
+                     "corner2": case["corner2"], "window": case["window"]}]
+        if kind == "layout_ctor":
+            return [{"op": "c19.layout_new", "shape": [case["h"], case["w"]], "corner": case["corner"],
+                     "regions": case["regions"]}]
         raise ValueError(kind)
 
     def model_obs(self, case, responses):
@@ -350,28 +377,10 @@ class C19(PropertyCheck):
             # `rotate_region_via_roe_corner_from` takes a tuple: only the rotated tuple is validated
             r = responses[1]
             return r["ok"] if "ok" in r else {"err": r["err"]}
-        if kind == "layout":
-            return self._layout_model(case, responses)
         r = responses[0]
         return r["ok"] if "ok" in r else {"err": r["err"]}
 
-    def _layout_model(self, case, responses):
-        for r in responses:
-            if "err" in r:
-                return {"err": r["err"]}
-        rot_arr = responses[0]["ok"]
-        it = iter(responses[1:])
-        rotated = [None if r is None else next(it)["ok"] for r in case["regions"]]
-        return {"orientation_from": rot_arr, "rotated": rotated, "original_orientation": rot_arr}
-
     def compare(self, case, impl_obs, model_obs, cmp):
-        if case["kind"] == "layout" and isinstance(impl_obs, dict) and "err" not in impl_obs \
-                and "err" not in model_obs:
-            # second-stage quantities are functions of the first-stage ones; the first stage is compared
-            # with the model here, the rest is checked by the oracle against independent arithmetic
-            sub = {"orientation_from": impl_obs["orientation_from"], "rotated": impl_obs["rotated"],
-                   "original_orientation": impl_obs["original_orientation"]}
-            return cmp.diff(sub, model_obs)
         if isinstance(impl_obs, dict) and "err" in impl_obs:
             impl_obs = {"err": impl_obs["err"]}
         return cmp.diff(impl_obs, model_obs)
@@ -501,10 +510,22 @@ class C19(PropertyCheck):
             return False, f"invalid region {r} (negative or empty extent) was not rejected"
         return True, ""
 
+    def _oracle_layout_ctor(self, case, obs):
+        ok = all(r is None or _valid2(r) for r in case["regions"])
+        if ok:
+            want = {"regions": case["regions"], "roe": case["corner"], "shape": [case["h"], case["w"]]}
+            if obs != want:
+                return False, f"Layout2D(...) with valid regions = {obs}, expected {want}"
+        elif obs != {"err": "bad_region"}:
+            return False, f"Layout2D(...) accepted an invalid region (negative or empty extent): {case['regions']}"
+        return True, ""
+
     def _oracle_layout(self, case, obs):
+        h, w = case["h"], case["w"]
+        if not all(r is None or (_valid2(r) and r[1] <= h and r[3] <= w) for r in case["regions"]):
+            return True, ""  # a region leaves the frame: outside the statement (the model mirrors the code)
         if "err" in obs:
             return False, f"raised {obs}"
-        h, w = case["h"], case["w"]
         rows = [[q(Fraction(v)) for v in case["values"][y * w:(y + 1) * w]] for y in range(h)]
         c, c2 = case["corner"], case["corner2"]
         rot = [None if r is None else self._rot_region(r, h, w, c) for r in case["regions"]]
@@ -579,7 +600,10 @@ class C19(PropertyCheck):
                     "C19.trailing1d_pixels", "C19.parallel_front_content", "C19.serial_front_content",
                     "C19.front1d_content"],
             "ctor": ["C19.region2d_rejects_iff_invalid", "C19.region1d_rejects_iff_invalid"],
-            "layout": ["C19.rotate_commutes_with_slice", "C19.region_after_extraction_eq_overlap"],
+            "layout": ["C19.layout_rotated_slices_rotated_content", "C19.layout_new_rotated_slices_rotated_content",
+                       "C19.layout_rotated_twice", "C19.layout_extracted_regions",
+                       "C19.original_orientation_undoes_rotation"],
+            "layout_ctor": ["C19.layout_new_iff_valid"],
         }.get(case["kind"], ["C19.*"])
 
 
